@@ -16,7 +16,9 @@ Judge(e) ==
   LET r == RunDoc(e.doc) IN
   IF r.verdict = "unjudged" THEN <<>>
   ELSE IF r.verdict = "accept"
-  THEN << <<"accepts-valid [" \o e.label \o "]", e.out.ok>>,
+  THEN << \* route "kwnone" spells every absent child out as keyword=None; the property promises nothing about
+          \* ACCEPTING that spelling (OFX.validate_args looks at keyword names only), so there only refusals are judged
+          <<"accepts-valid [" \o e.label \o "]", e.route = "kwnone" \/ e.out.ok>>,
           <<"model-equals-document [" \o e.label \o "]", e.out.ok => e.out.inst = r.inst>>,
           <<"generator-intended-reject [" \o e.label \o "]", e.expect # "reject">>,
           <<"twin-model-equal [" \o e.label \o "]", (e.hastwin /\ e.out.ok) => e.out.inst = e.twin>> >>
